@@ -171,9 +171,11 @@ class PreprocessorData:
         self.result_ops.append(new_segment)
 
         self.curr_address = next_segment_start
+        self.assert_current_address_in_memory()
 
     def insert_reserve(self, reserved_bits_size: int) -> None:
         self.curr_address += reserved_bits_size
+        self.assert_current_address_in_memory()
         self.result_ops.append(ReserveBits(self.curr_address))
 
     def insert_label(self, label: str, code_position: CodePosition, *, address: Optional[int] = None) -> None:
